@@ -35,30 +35,40 @@ def fs(x: F) -> str:
     return f"{x.numerator}/{x.denominator}"
 
 
+def fnum(x) -> str:
+    """a float of the implementation as an exact rational; NaN / inf (never produced by a correct run) as text"""
+    x = float(x)
+    return fs(F(x)) if x == x and abs(x) != float("inf") else "nan"
+
+
+def pnum(t: str):
+    return None if t == "nan" else F(t)
+
+
 def canon(v):
     """implementation value -> the driver's value syntax (exact rationals of the floats)"""
     import numpy as np
     import pandas as pd
     if isinstance(v, pd.Series):
-        return "v:" + ",".join(f"{int(i)}={fs(F(float(x)))}" for i, x in zip(v.index, v.values))
+        return "v:" + ",".join(f"{int(i)}={fnum(x)}" for i, x in zip(v.index, v.values))
     if isinstance(v, pd.DataFrame):
-        return "f:" + "|".join(f"{c}[" + ",".join(f"{int(i)}={fs(F(float(x)))}" for i, x in zip(v.index, v[c].values)) + "]" for c in v.columns)
+        return "f:" + "|".join(f"{c}[" + ",".join(f"{int(i)}={fnum(x)}" for i, x in zip(v.index, v[c].values)) + "]" for c in v.columns)
     if isinstance(v, np.ndarray):
-        return "a:" + ",".join(fs(F(float(x))) for x in v)
+        return "a:" + ",".join(fnum(x) for x in v)
     if isinstance(v, (list, tuple)):
         return "l:" + ";".join(canon(x) for x in v)
     if isinstance(v, (int, float, np.floating, np.integer)):
-        return "s:" + fs(F(float(v)))
+        return "s:" + fnum(v)
     return "?:" + type(v).__name__
 
 
 def parse_val(s: str):
     """value syntax -> ('s', F) | ('v', [(label, F)]) | ('l', [items]) | ('?', text)"""
     if s.startswith("s:"):
-        return ("s", F(s[2:]))
+        return ("s", pnum(s[2:]))
     if s.startswith("v:"):
         body = s[2:]
-        return ("v", [(int(e.split("=")[0]), F(e.split("=")[1])) for e in body.split(",")] if body else [])
+        return ("v", [(int(e.split("=")[0]), pnum(e.split("=")[1])) for e in body.split(",")] if body else [])
     if s.startswith("l:"):
         body = s[2:]
         return ("l", [parse_val(e) for e in body.split(";")] if body else [])
@@ -66,19 +76,38 @@ def parse_val(s: str):
         cols = []
         for c in s[2:].split("|"):
             name, body = c[:-1].split("[")
-            cols.append((name, [(int(e.split("=")[0]), F(e.split("=")[1])) for e in body.split(",")] if body else []))
+            cols.append((name, [(int(e.split("=")[0]), pnum(e.split("=")[1])) for e in body.split(",")] if body else []))
         return ("f", cols)
     if s.startswith("a:"):
-        return ("a", [F(e) for e in s[2:].split(",")] if s[2:] else [])
+        return ("a", [pnum(e) for e in s[2:].split(",")] if s[2:] else [])
     return ("?", s)
 
 
-def close(a: F, b: F) -> bool:
-    return a == b or abs(a - b) <= TOL * max(abs(a), abs(b))
+SCALE = [F(0)]      # magnitude of the intermediate values of the call being judged (general stream: a value that is a small
+                    # difference of large intermediates carries their absolute rounding error)
+
+
+def close(a, b) -> bool:
+    if a is None or b is None:
+        return False            # NaN is never a correct value
+    return a == b or abs(a - b) <= TOL * max(abs(a), abs(b), SCALE[0])
+
+
+def set_scale(rec):
+    m = F(1)
+    for t in rec.get("trace", []):
+        for txt in (t["out"], t["prev"]):
+            if txt:
+                for _, x in cells(parse_val(txt)):
+                    if x is not None and abs(x) > m:
+                        m = abs(x)
+    SCALE[0] = m
 
 
 def val_eq(a, b, exact: bool) -> bool:
     if a[0] != b[0]:
+        return False
+    if any(x is None for _, x in cells(a)) or any(x is None for _, x in cells(b)):
         return False
     if a[0] == "s":
         return a[1] == b[1] if exact else close(a[1], b[1])
@@ -103,6 +132,8 @@ def cells(v):
         return [(None, x) for x in v[1]]
     if v[0] == "f":
         return [c for _, col in v[1] for c in col]
+    if v[0] == "l":
+        return [c for it in v[1] for c in cells(it)]
     return []
 
 
@@ -291,7 +322,7 @@ def _run(case):
                 idx, a, prev, extra = None, 0.0, args[0], False
             out = effect(eff, idx, a, prev)
             TRACE.append({"tag": tag, "idx": None if idx is None else [int(i) for i in idx],
-                          "a": None if a is None else fs(F(float(a))), "extra": extra,
+                          "a": None if a is None else fnum(a), "extra": extra,
                           "prev": None if prev is None else canon(prev), "out": canon(out)})
             return out
         f.__name__ = "probe_" + tag
@@ -345,6 +376,7 @@ def _run(case):
         def setup(self, b):
             self.get = b.value.get_value
             self.pipes = {c["pipe"]: b.value.get_value(c["pipe"]) for c in case["calls"]}
+            self.tracked = b.population.get_view(["tracked"])
             self.gstep = b.time.step_size()
             self.sstep = b.time.simulant_step_sizes()
             self.clock = b.time.clock()
@@ -355,16 +387,26 @@ def _run(case):
 
         def on_time_step(self, e):
             self.nstep += 1
+            # simulants leave the simulation: `tracked = False` written by this listener at the start of step `at`
+            for at, sims in case.get("untrack", []):
+                if at == self.nstep and sims:
+                    self.tracked.update(pd.Series(False, index=pd.Index(np.array(sims, dtype="int64")), name="tracked"))
             for ci, c in enumerate(case["calls"]):
                 if c["where"] == "listener" and c["after"] == self.nstep:
-                    do_call(ci, c)
+                    do_call(ci, c, e)
 
     drv = Driver()
 
-    def do_call(ci, c):
+    def do_call(ci, c, event=None):
         pipe = drv.pipes[c["pipe"]]
         a = fl(c["a"])
-        args = [] if c["idx"] is None else [pd.Index(np.array(c["idx"], dtype="int64"))]
+        if c["idx"] == "event":                 # the index the framework hands to listeners (untracked simulants included)
+            index = event.index
+        elif c["idx"] == "all":
+            index = sim.get_population(untracked=True).index
+        elif c["idx"] is not None:
+            index = pd.Index(np.array(c["idx"], dtype="int64"))
+        args = [] if c["idx"] is None else [index]
         kwargs = {}
         if c["kw"]:
             kwargs["a"] = a
@@ -373,9 +415,11 @@ def _run(case):
         if c["skip"]:
             kwargs["skip_post_processor"] = True
         allidx = pd.Index(np.arange(case["pop"], dtype="int64"))
-        rec = {"call": ci, "gstep_ns": int(pd.Timedelta(drv.gstep()).value),
+        rec = {"call": ci, "idx": None if c["idx"] is None else [int(i) for i in index],
+               "gstep_ns": int(pd.Timedelta(drv.gstep()).value),
                "sstep_ns": {int(i): int(pd.Timedelta(x).value) for i, x in drv.sstep(allidx).items()}}
         pop = sim._population.get_population(True)
+        rec["untracked"] = [int(i) for i in pop.index[~pop["tracked"].astype(bool)]]
         rec["col_ns"] = ({int(i): int(pd.Timedelta(x).value) for i, x in pop["step_size"].items()}
                          if "step_size" in pop.columns and case["mults"] is not None else None)
         TRACE.clear()
@@ -545,8 +589,19 @@ class C14(Prop):
         for c in calls:
             if c["where"] == "listener" and c["after"] == 0:
                 c["after"] = 1
+        # simulants that leave the simulation (tracked = False) while it runs; later requests still name them
+        untrack = []
+        if rng.random() < 0.4:
+            at = rng.choice([1, 1, 2])
+            untrack = [[at, sorted(rng.sample(range(pop), rng.randint(1, pop)))]]
+            for c in calls:
+                if rng.random() < 0.7:
+                    c["after"] = max(c["after"], at if c["where"] == "listener" else at + rng.choice([0, 0, 1]))
+        for c in calls:
+            if c["idx"] is not None and rng.random() < 0.25:
+                c["idx"] = "event" if c["where"] == "listener" and rng.random() < 0.6 else "all"
         case = {"stream": "exact" if exact else "general", "pop": pop, "min_step_ns": min_ns, "mults": mults,
-                "comps": comps, "calls": calls, "driver_pos": rng.randint(0, 4)}
+                "comps": comps, "calls": calls, "driver_pos": rng.randint(0, 4), "untrack": untrack}
         if exact:
             case = self._make_exact(case)
         return case
@@ -575,6 +630,8 @@ class C14(Prop):
         bad = set()
         regs = [dict(a, outcome="?") for comp in case["comps"] for a in comp]
         for c in case["calls"]:
+            if isinstance(c["idx"], str):
+                c = dict(c, idx=list(range(case["pop"])))
             try:
                 self._expected(case, self._registered(regs, assume=True), c, None, check=True)
             except _Inexact:
@@ -606,6 +663,15 @@ class C14(Prop):
                                s("p3", "replace", "rescale", "fgen:1:0:0:3")]],
                     "calls": [c("p0", [3, 1, 0, 2]), c("p0", [2, 3], after=1), c("p0", [1], skip=True), c("p1", [2, 0, 1]), c("p2", [0]),
                               c("p2", [0], skip=True), c("p3", [1, 2], after=2, where="listener"), c("p3", [], after=1)]})
+        # simulants 1 and 3 are untracked during step 1; rate pipelines (Series, DataFrame), a union and a plain value are then
+        # called with explicit labels that include them, with event.index and with the whole population
+        out.append({"stream": "exact", "pop": 4, "min_step_ns": year8, "mults": [2, 3, 2, 4], "driver_pos": 0, "untrack": [[1, [1, 3]]],
+                    "comps": [[s("p0", "replace", "rescale", "gen:1/2:1/4:0", via="rate"), m("p0", "aff:2:0:1/4:0", "m1"),
+                               s("p1", "replace", "rescale", "fgen:1/2:1/4:0:2"), s("p2", "list", "union", "lgen:1/8:1/16:0"), m("p2", "gen:1/4:0:0", "m2"),
+                               s("p3", "replace", "none", "gen:1:1:0")]],
+                    "calls": [c("p0", [3, 1, 0, 2], after=1), c("p1", [1, 2, 3], after=2), c("p0", "event", after=2, where="listener"),
+                              c("p1", "all", after=1, where="listener"), c("p2", [3, 0], after=1), c("p3", "all", after=2), c("p0", [1], after=0),
+                              c("p0", [3], after=3, skip=True)]})
         # union of DataFrames
         out.append({"stream": "exact", "pop": 3, "min_step_ns": year8, "mults": None, "driver_pos": 0,
                     "comps": [[s("p0", "list", "union", "lfgen:1/8:1/16:0:2"), m("p0", "fgen:1/4:0:0:2", "m1"), m("p0", "fgen:0:1/16:0:2", "m2")]],
@@ -634,6 +700,11 @@ class C14(Prop):
                     yield dict(case, comps=case["comps"][:k] + [comp[:i] + comp[i + 1:]] + case["comps"][k + 1:])
         if case["mults"] is not None and case["pop"] > 1:
             yield dict(case, mults=None)
+        if case.get("untrack"):
+            yield dict(case, untrack=[])
+        for i, c in enumerate(case["calls"]):
+            if isinstance(c["idx"], str):
+                yield dict(case, calls=case["calls"][:i] + [dict(c, idx=list(range(case["pop"])))] + case["calls"][i + 1:])
         for i, c in enumerate(case["calls"]):
             if c["after"] > 0 and c["where"] == "outside":
                 yield dict(case, calls=case["calls"][:i] + [dict(c, after=0)] + case["calls"][i + 1:])
@@ -656,6 +727,12 @@ class C14(Prop):
                 if p["src"] is None and (assume or r["outcome"] == "ok"):
                     p["src"] = r
         return pipes
+
+    @staticmethod
+    def _call(case, rec):
+        """the call of the case with its index resolved to the labels that were actually passed (event.index / whole population)"""
+        c = case["calls"][rec["call"]]
+        return dict(c, idx=rec["idx"], spec=c["idx"] if isinstance(c["idx"], str) else "labels")
 
     def _acts_by_tag(self, case):
         return {(a["pipe"], a["tag"]): a for comp in case["comps"] for a in comp}
@@ -727,7 +804,7 @@ class C14(Prop):
             else:
                 L.append(f"src {r['pipe']} {r['comp']} {a['comb']} {a['post']} {a['eff']}")
         for rec in obs["calls"]:
-            c = case["calls"][rec["call"]]
+            c = self._call(case, rec)
             own = rec["col_ns"] if rec["col_ns"] is not None else rec["sstep_ns"]
             sims = ",".join(f"{i}={ns}" for i, ns in sorted(own.items())) or "-"
             L.append(f"clock {rec['gstep_ns']} {sims}")
@@ -745,7 +822,8 @@ class C14(Prop):
         acts = self._acts_by_tag(case)
         for k, rec in enumerate(obs["calls"]):
             rep = replies[n + 2 * k + 1]
-            c = case["calls"][rec["call"]]
+            c = self._call(case, rec)
+            set_scale(rec)
             if rep.startswith("err"):
                 if rec["outcome"] == "ok":
                     dis.append(f"call {c}: impl ok, model {rep}")
@@ -796,14 +874,17 @@ class C14(Prop):
         if len(obs["calls"]) != len(case["calls"]):
             f.append({"sig": "call-missing", "msg": f"{len(obs['calls'])} of {len(case['calls'])} calls were made"})
         for rec in obs["calls"]:
-            c = case["calls"][rec["call"]]
-            where = f"call {c['pipe']}({c['idx']}, a={c['a']}, skip={c['skip']}) after {c['after']} steps ({c['where']})"
+            c = self._call(case, rec)
+            set_scale(rec)
+            where = f"call {c['pipe']}({c['idx']}{'' if c['spec'] == 'labels' else ' = ' + c['spec']}, a={c['a']}, skip={c['skip']}) after {c['after']} steps ({c['where']})"
             # each simulant's own step: the state table column, equal to what its step modifier asked for
             if case["mults"] is not None:
                 want = {i: case["mults"][i] * obs["min_step_ns"] for i in range(case["pop"])}
-                if rec["col_ns"] != want or rec["sstep_ns"] != want:
-                    f.append({"sig": "simulant-step", "msg": f"{where}: step column {rec['col_ns']}, simulant_step_sizes {rec['sstep_ns']}, modifier asked {want}"})
+                if rec["col_ns"] != want:
+                    f.append({"sig": "simulant-step", "msg": f"{where}: step column {rec['col_ns']}, modifier asked {want}"})
                     continue
+                if rec["sstep_ns"] != want:     # every simulant of the population has a step of its own, tracked or not
+                    f.append({"sig": "simulant-step-sizes", "msg": f"{where}: simulant_step_sizes(whole population) = {rec['sstep_ns']}, step column {want} (untracked: {rec['untracked']})"})
             elif any(v != rec["gstep_ns"] for v in rec["sstep_ns"].values()):
                 f.append({"sig": "simulant-step", "msg": f"{where}: no per-simulant clocks but steps {rec['sstep_ns']} vs global {rec['gstep_ns']}"})
             steps = {"g": rec["gstep_ns"], "s": rec["col_ns"] if rec["col_ns"] is not None else rec["sstep_ns"]}
@@ -863,7 +944,9 @@ class C14(Prop):
             elif post == "rescale":
                 want = ref_rescale(pre_v, steps)
                 if not val_eq(got, want, exact):
-                    f.append({"sig": "rescale-value", "msg": f"{where}: returned {rec['value']}; annual {pre_v} with steps {steps} should give {want}"})
+                    nan = [i for i, x in cells(got) if x is None]
+                    f.append({"sig": "rescale-value", "msg": f"{where}: returned {rec['value']}" + (f" (NaN for simulants {nan}; untracked: {rec['untracked']})" if nan else "")
+                              + f"; annual {pre_v} with steps {steps} should give {want}"})
             elif post == "union":
                 want = ref_union(pre_v[1])
                 if not val_eq(got, want, exact):
@@ -904,7 +987,7 @@ class C14(Prop):
                 elif comp != r["comp"]:
                     t.append("modifier-after-source:other-component")
         for rec in obs["calls"]:
-            c = case["calls"][rec["call"]]
+            c = self._call(case, rec)
             p = pipes.get(c["pipe"])
             t.append("call:" + ("ok" if rec["outcome"] == "ok" else "rejected-no-source" if not (p and p["src"]) else "raised:" + rec["outcome"][4:]))
             t.append("where:" + c["where"])
@@ -919,6 +1002,11 @@ class C14(Prop):
                 t.append("index:" + ("none" if c["idx"] is None else "empty" if not c["idx"] else
                                      "permuted" if c["idx"] != sorted(c["idx"]) else "partial" if len(c["idx"]) < case["pop"] else "full"))
                 t.append("arg:" + ("keyword" if c["kw"] else "positional"))
+                t.append("request:" + c["spec"])
+                if c["idx"] and set(c["idx"]) & set(rec["untracked"]):
+                    t.append("request:includes-untracked")
+                    if src["post"] == "rescale" and not c["skip"]:
+                        t.append("rescale:untracked-simulant" + (":per-simulant-clocks" if case["mults"] is not None else ""))
                 shape = {"s": "number", "v": "series", "f": "frame", "a": "array", "l": "list"}.get(rec["value"][0], "?")
                 t.append("value:" + shape)
                 if src["post"] == "rescale" and not c["skip"]:
@@ -933,7 +1021,7 @@ class C14(Prop):
 
     def sample_view(self, case, obs):
         return {"stream": case["stream"], "mults": case["mults"], "registrations": [(r["op"], r["pipe"], r["comp"], r["outcome"]) for r in obs.get("reg", [])][:8],
-                "calls": [{"call": case["calls"][r["call"]], "outcome": r["outcome"], "value": r["value"], "trace": [t["tag"] for t in r["trace"]]}
+                "calls": [{"call": self._call(case, r), "outcome": r["outcome"], "value": r["value"], "trace": [t["tag"] for t in r["trace"]]}
                           for r in obs.get("calls", [])][:3], "error": obs.get("error")}
 
 
